@@ -16,6 +16,11 @@ def pyInsert (l : List α) (i : Option Int) (x : α) : List α :=
   let j := match i with | none => l.length | some i => pyInsertPos l.length i
   l.take j ++ x :: l.drop j
 
+/-- `movefield`: the positions of the output fields — the field at `fidx` taken out and put back at `i` (Python's
+    `list.insert`), every other position kept in order -/
+def moveFieldIdx (n fidx : Nat) (i : Int) : List Nat :=
+  pyInsert ((List.range n).filter (fun j => j != fidx)) (some i) fidx
+
 /-- a cell read with padding -/
 def padGet (missing : Val) (r : Row) (i : Nat) : Val := r.getD i missing
 
